@@ -33,6 +33,10 @@ type Scenario struct {
 	// is a deviation).
 	MaxTicks int
 	TickStep time.Duration
+	// IdleTicks: further clock advances allowed only while no thread is enabled (a harness thread
+	// that sleeps between two operations is then woken instead of being reported as a deadlock;
+	// no branching: the tick is the only alternative at such a point).
+	IdleTicks int
 	// Horizon bounds the number of scheduling steps of one execution.
 	Horizon int
 	// RoundRobin selects the default scheduler: false = the thread that ran last continues while
@@ -169,7 +173,7 @@ func RunExpect(sc *Scenario, prefix []int, expect []Point) (x *Exec) {
 	}()
 	running := -1
 	var prio []int // Demote policy: thread ids from highest to lowest priority
-	ticks := 0
+	ticks, idleTicks := 0, 0
 	tickStep := sc.TickStep
 	if tickStep == 0 {
 		tickStep = 100 * time.Millisecond
@@ -254,6 +258,9 @@ func RunExpect(sc *Scenario, prefix []int, expect []Point) (x *Exec) {
 				c = 0
 			}
 			alts = append(alts, alt{tick: true, cost: c, desc: "clock +" + tickStep.String()})
+		} else if len(alts) == 0 && idleTicks < sc.IdleTicks {
+			idleTicks++
+			alts = append(alts, alt{tick: true, cost: 0, desc: "idle clock +" + tickStep.String()})
 		}
 		if len(alts) == 0 {
 			x.Deadlock = true
